@@ -10,9 +10,15 @@ Base/Res.vos Base/Res.vok Base/Res.required_vos: Base/Res.v
 Gen/Consts.vo Gen/Consts.glob Gen/Consts.v.beautified Gen/Consts.required_vo: Gen/Consts.v 
 Gen/Consts.vio: Gen/Consts.v 
 Gen/Consts.vos Gen/Consts.vok Gen/Consts.required_vos: Gen/Consts.v 
+Gen/RdataTables.vo Gen/RdataTables.glob Gen/RdataTables.v.beautified Gen/RdataTables.required_vo: Gen/RdataTables.v 
+Gen/RdataTables.vio: Gen/RdataTables.v 
+Gen/RdataTables.vos Gen/RdataTables.vok Gen/RdataTables.required_vos: Gen/RdataTables.v 
 Model/NameWire.vo Model/NameWire.glob Model/NameWire.v.beautified Model/NameWire.required_vo: Model/NameWire.v Base/Res.vo Base/Octets.vo Gen/Consts.vo
 Model/NameWire.vio: Model/NameWire.v Base/Res.vio Base/Octets.vio Gen/Consts.vio
 Model/NameWire.vos Model/NameWire.vok Model/NameWire.required_vos: Model/NameWire.v Base/Res.vos Base/Octets.vos Gen/Consts.vos
+Model/RdataM.vo Model/RdataM.glob Model/RdataM.v.beautified Model/RdataM.required_vo: Model/RdataM.v Base/Res.vo Base/Octets.vo Gen/Consts.vo Gen/RdataTables.vo Model/NameWire.vo
+Model/RdataM.vio: Model/RdataM.v Base/Res.vio Base/Octets.vio Gen/Consts.vio Gen/RdataTables.vio Model/NameWire.vio
+Model/RdataM.vos Model/RdataM.vok Model/RdataM.required_vos: Model/RdataM.v Base/Res.vos Base/Octets.vos Gen/Consts.vos Gen/RdataTables.vos Model/NameWire.vos
 Proofs/NameWireP.vo Proofs/NameWireP.glob Proofs/NameWireP.v.beautified Proofs/NameWireP.required_vo: Proofs/NameWireP.v Base/ListX.vo Model/NameWire.vo Spec/NameWireS.vo Spec/NameRepr.vo
 Proofs/NameWireP.vio: Proofs/NameWireP.v Base/ListX.vio Model/NameWire.vio Spec/NameWireS.vio Spec/NameRepr.vio
 Proofs/NameWireP.vos Proofs/NameWireP.vok Proofs/NameWireP.required_vos: Proofs/NameWireP.v Base/ListX.vos Model/NameWire.vos Spec/NameWireS.vos Spec/NameRepr.vos
@@ -22,9 +28,15 @@ Proofs/NameWireSP.vos Proofs/NameWireSP.vok Proofs/NameWireSP.required_vos: Proo
 Props/C14.vo Props/C14.glob Props/C14.v.beautified Props/C14.required_vo: Props/C14.v Base/ListX.vo Model/NameWire.vo Spec/NameWireS.vo Spec/NameRepr.vo Proofs/NameWireP.vo Proofs/NameWireSP.vo
 Props/C14.vio: Props/C14.v Base/ListX.vio Model/NameWire.vio Spec/NameWireS.vio Spec/NameRepr.vio Proofs/NameWireP.vio Proofs/NameWireSP.vio
 Props/C14.vos Props/C14.vok Props/C14.required_vos: Props/C14.v Base/ListX.vos Model/NameWire.vos Spec/NameWireS.vos Spec/NameRepr.vos Proofs/NameWireP.vos Proofs/NameWireSP.vos
+Props/C18.vo Props/C18.glob Props/C18.v.beautified Props/C18.required_vo: Props/C18.v Base/ListX.vo Model/NameWire.vo Model/RdataM.vo Spec/RdataFormatS.vo
+Props/C18.vio: Props/C18.v Base/ListX.vio Model/NameWire.vio Model/RdataM.vio Spec/RdataFormatS.vio
+Props/C18.vos Props/C18.vok Props/C18.required_vos: Props/C18.v Base/ListX.vos Model/NameWire.vos Model/RdataM.vos Spec/RdataFormatS.vos
 Spec/NameRepr.vo Spec/NameRepr.glob Spec/NameRepr.v.beautified Spec/NameRepr.required_vo: Spec/NameRepr.v Model/NameWire.vo Spec/NameWireS.vo
 Spec/NameRepr.vio: Spec/NameRepr.v Model/NameWire.vio Spec/NameWireS.vio
 Spec/NameRepr.vos Spec/NameRepr.vok Spec/NameRepr.required_vos: Spec/NameRepr.v Model/NameWire.vos Spec/NameWireS.vos
 Spec/NameWireS.vo Spec/NameWireS.glob Spec/NameWireS.v.beautified Spec/NameWireS.required_vo: Spec/NameWireS.v Base/Res.vo Base/Octets.vo
 Spec/NameWireS.vio: Spec/NameWireS.v Base/Res.vio Base/Octets.vio
 Spec/NameWireS.vos Spec/NameWireS.vok Spec/NameWireS.required_vos: Spec/NameWireS.v Base/Res.vos Base/Octets.vos
+Spec/RdataFormatS.vo Spec/RdataFormatS.glob Spec/RdataFormatS.v.beautified Spec/RdataFormatS.required_vo: Spec/RdataFormatS.v Base/Res.vo Base/Octets.vo Spec/NameWireS.vo
+Spec/RdataFormatS.vio: Spec/RdataFormatS.v Base/Res.vio Base/Octets.vio Spec/NameWireS.vio
+Spec/RdataFormatS.vos Spec/RdataFormatS.vok Spec/RdataFormatS.required_vos: Spec/RdataFormatS.v Base/Res.vos Base/Octets.vos Spec/NameWireS.vos
